@@ -117,6 +117,14 @@ theorem binBits_sound (op : Src.BinOp) (t : STy) (x y : List Bool) (va vb : Val)
       rw [binop_gt k a b ha hb] at h
       simp only [Option.some.injEq, Prod.mk.injEq] at h; obtain ⟨rfl, rfl, rfl⟩ := h
       simp [Src.binop, STy.toTy, intOp, Rel, firstOf]
+    case le =>
+      simp only [Option.some.injEq, Prod.mk.injEq] at h; obtain ⟨rfl, rfl, rfl⟩ := h
+      rw [(le_bits k a b ha hb).1]
+      simp [Src.binop, STy.toTy, intOp, Rel, firstOf]
+    case ge =>
+      simp only [Option.some.injEq, Prod.mk.injEq] at h; obtain ⟨rfl, rfl, rfl⟩ := h
+      rw [(le_bits k a b ha hb).2]
+      simp [Src.binop, STy.toTy, intOp, Rel, firstOf]
     case eq =>
       rw [(binop_eq_int k a b ha hb).1] at h
       simp only [Option.some.injEq, Prod.mk.injEq] at h; obtain ⟨rfl, rfl, rfl⟩ := h
@@ -128,6 +136,25 @@ theorem binBits_sound (op : Src.BinOp) (t : STy) (x y : List Bool) (va vb : Val)
       simp [Src.binop, Val.beq, Rel, firstOf]
       by_cases hab : a = b <;> simp [hab]
     all_goals (simp at h)
+
+/-- `as` never fails on a value of the source type, and its bits are the encoding of the result -/
+theorem cast_sound (ts td : STy) (va : Val) (x : List Bool) (h : Rel ts va x) :
+    ∃ w, Src.cast ts.toTy td.toTy va = .ok w ∧ Rel td w (Arith.cast x ts.signed td.bits) := by
+  cases ts with
+  | bool =>
+    obtain ⟨b, rfl, rfl⟩ := h.bool_inv
+    cases td with
+    | bool => exact ⟨.bool b, rfl, by simp [Rel, STy.signed, STy.bits, Arith.cast]⟩
+    | int k' =>
+      have hc := cast_bool_int k' b
+      exact ⟨.int (if b then 1 else 0), rfl, ⟨hc.2, hc.1⟩⟩
+  | int k =>
+    obtain ⟨n, rfl, hn, rfl⟩ := h.int_inv
+    cases td with
+    | bool => exact ⟨.bool (n % 2 == 1), rfl, by simp [Rel, STy.signed, STy.bits, cast_int_bool k n hn]⟩
+    | int k' =>
+      have hc := cast_int_int k k' n hn
+      exact ⟨.int (Src.wrapTo k' n), rfl, ⟨hc.2, hc.1⟩⟩
 
 /-- what the theorem says about one expression / statement list for a given fuel -/
 def ExprOK (prog : Prog) (fuel : Nat) : Prop :=
@@ -306,6 +333,49 @@ theorem exprOK_succ (prog : Prog) (fuel : Nat) (ihE : ExprOK prog fuel) (ihS : S
           · simp at hb
         · simp at hb
       all_goals (simp at hb)
+  | cast src dst a =>
+    simp only [bitExpr] at hb
+    split at hb
+    · rename_i ts td hs hd
+      split at hb
+      · rename_i ta x p1 ha
+        split at hb
+        · rename_i hts
+          subst hts
+          simp only [Option.some.injEq, Prod.mk.injEq] at hb
+          obtain ⟨rfl, rfl, rfl⟩ := hb
+          have ih := ihE a env benv _ _ _ henv ha
+          have hsrc := ofTy_some hs
+          have hdst := ofTy_some hd
+          subst hsrc
+          subst hdst
+          constructor
+          · intro v env' h
+            rw [evalExpr] at h
+            cases hev : evalExpr fuel prog env a with
+            | error er => simp [hev] at h
+            | ok res =>
+              obtain ⟨va, env1⟩ := res
+              obtain ⟨rfl, hrel, rfl⟩ := ih.1 va env1 hev
+              obtain ⟨w, hw, hrw⟩ := cast_sound ta td va x hrel
+              simp only [hev, hw, Except.ok.injEq, Prod.mk.injEq] at h
+              obtain ⟨rfl, rfl⟩ := h
+              exact ⟨rfl, hrw, rfl⟩
+          · intro k h
+            rw [evalExpr] at h
+            cases hev : evalExpr fuel prog env a with
+            | error er =>
+              simp only [hev, Except.error.injEq] at h
+              subst h
+              exact ih.2 k hev
+            | ok res =>
+              obtain ⟨va, env1⟩ := res
+              obtain ⟨rfl, hrel, rfl⟩ := ih.1 va env1 hev
+              obtain ⟨w, hw, hrw⟩ := cast_sound ta td va x hrel
+              simp [hev, hw] at h
+        · simp at hb
+      · simp at hb
+    · simp at hb
   | ite c tb fb =>
     simp only [bitExpr] at hb
     split at hb
